@@ -12,6 +12,8 @@ structure RuleText where
   m : Nat            -- MaxEjectionPercent = m / 2^E
   E : Nat
   loaded : Bool := true   -- false after `clearres` (no rule in force; the recycler object and its map survive)
+  peBits : String := ""   -- MaxEjectionPercent as written
+  active : Bool := false
 
 structure St where
   now : Nat := 1900000000000   -- every case starts here (the Go harness resets its virtual clock to it)
@@ -79,10 +81,15 @@ def loadStep (s : St) (perRes : Bool) (args : List String) : St × Option String
       -- IsValidRule of both packages
       if strat > 2 then (s, some "bad-op") else
       if interval = 0 ∨ retry = 0 ∨ thrF < 0.0 ∨ thrF.isNaN ∨ (strat ≤ 1 ∧ thrF > 1.0) ∨ m > 2 ^ E then
-        (s, some (if perRes then "err" else "bad-op")) else
+        -- per-resource path: error, the old rule stays; bulk path: the invalid rule is ignored, so the resource has
+        -- no rule any more and `updateAllBreakers` drops its node breakers
+        (if perRes then (s, some "err") else
+          match getRes s name with
+          | some (r, t) => (setRes s name r.clear { t with loaded := false }, some "invalid")
+          | none => (s, some "invalid")) else
       let rule : Rule := { cb := mkCbRule strat retry minReq interval bc maxRt probe thrF, active := act ≠ 0,
                            cap := fun n => capF64 n m E }
-      let nt : RuleText := { cbPart := cbPart, m := m, E := E }
+      let nt : RuleText := { cbPart := cbPart, m := m, E := E, peBits := maxEj, active := act ≠ 0 }
       match getRes s name with
       | none => (setRes s name { rule := rule } nt, some "ok")
       | some (r, t) =>
@@ -113,6 +120,23 @@ def modelStep (s : St) (ts : List String) : St × Option String :=
     -- `LoadRuleOfResource(res, nil)`: rule and node breakers of the resource are dropped
     | some (r, t) => (setRes s name r.clear { t with loaded := false }, some "ok")
     | none => (s, some "ok")
+  | ["rules"] =>
+    -- `outlier.GetRules()`: the rules in force, as (resource, MaxEjectionPercent, EnableActiveRecovery)
+    (s, some (showList (sortS ((s.res.filter fun p => p.2.2.loaded).map fun p =>
+      p.1 ++ ":" ++ p.2.2.peBits ++ ":" ++ (if p.2.2.active then "1" else "0")))))
+  | ["unload", name] => match getRes s name with
+    -- bulk `LoadRules` of a rule set that omits the resource: `updateAllBreakers` keeps node breakers only for
+    -- resources that still have a rule
+    | some (r, t) => (setRes s name r.clear { t with loaded := false }, some "ok")
+    | none => (s, some "ok")
+  | ["check", name, addr, oc] => match getRes s name with
+    -- `Retryer.connectNode` with a scripted `RecoveryCheckFunc`: success = `onConnected(node, 0)`,
+    -- failure = `onDisconnected(node)` (re-arms a timer, touches nothing else)
+    | some (r, t) =>
+      if !t.loaded ∨ (oc ≠ "ok" ∧ oc ≠ "fail") then (s, some "bad-op") else
+      let r1 := if oc == "ok" then r.retryOk s.now addr 0 else r.retryFail addr
+      (setRes s name r1 t, some s!"nodes={showStates r1.nodes}")
+    | none => (s, some "bad-op")
   | ["clock", t] => match t.toNat? with
     | some t => if s.now ≤ t then ({ s with now := t }, none) else (s, some "bad-op")
     | none => (s, some "bad-op")
@@ -214,7 +238,11 @@ def judgeCheck (r : ORes) (res : String) : String × List String :=
           | _ => none)
       let capC := capF64 n r.m r.E
       let floorE := capExact n r.m r.E
+      let postAddrs := post.filterMap fun x => (x.splitOn ":").head?
       if post.length ≠ n then ("bad node-count", rej)
+      -- the known nodes are those seen completing since the rule was (re)loaded, minus the recycled ones: nothing else
+      -- may add or remove a node between two observations
+      else if sortS postAddrs ≠ sortS r.known then ("bad known-node-set-changed-without-event", rej)
       else if !subOk then ("bad filter-not-subset-of-rejecting", rej)
       else if sortS halfs ≠ halfExp then ("bad halfopen-set", rej)
       else if nf > floorE + 1 ∨ nf > capC then ("bad filter-exceeds-floor", rej)
@@ -231,11 +259,27 @@ def oracleStep (s : OSt) (ts : List String) (line : String) : OSt × Option Stri
     if op ≠ "load" ∧ op ≠ "loadres" then (s, some "bad-op") else
     match parseF? maxEj, active.toNat? with
     | some (m, E), some act =>
+      if res = "invalid" ∧ op = "load" then
+        -- bulk load of an invalid rule: the resource is left without a rule, its nodes are dropped
+        match oGet s name with
+        | some r => (oSet s name { r with m := 0, E := 0, active := false, loaded := false, known := [] }, some "?")
+        | none => (s, some "?")
+      else
       if res ≠ "ok" then (s, some "?") else
       let st := ((oGet s name).map (·.status)).getD []
       let kn := ((oGet s name).map (·.known)).getD []
       (oSet s name { m := m, E := E, active := act ≠ 0, status := st, known := kn }, some "?")
     | _, _ => (s, some (if op = "loadres" ∧ res = "err" then "?" else "bad-op"))
+  | ["rules"] => (s, some "?")
+  | ["unload", name] => match oGet s name with
+    | some r => (oSet s name { r with m := 0, E := 0, active := false, loaded := false, known := [] }, some "?")
+    | none => (s, some "?")
+  | ["check", name, addr, oc] => match oGet s name with
+    | some r =>
+      if !r.loaded then (s, some "bad-op") else
+      let st := if oc == "ok" then stRecover r.status addr else r.status     -- a failed check changes nothing
+      (oSet s name { r with status := st, known := addrsOf res "nodes" r.known }, some "?")
+    | none => (s, some "bad-op")
   | ["clearres", name] => match oGet s name with
     -- no rule in force: nothing may be filtered (cap 0); the recycler map survives
     | some r => (oSet s name { r with m := 0, E := 0, active := false, loaded := false, known := [] }, some "?")
